@@ -41,7 +41,8 @@ import dliswriter  # noqa: E402
 import dliswriter.file.writer as _W  # noqa: E402
 from dliswriter.utils.internal import verif_hooks as _hooks  # noqa: E402
 
-_W.progressbar = lambda it, **kw: it
+# the progress bar is part of the behaviour (it raises when more records are written than it was told to expect), so it is
+# NOT replaced; its output goes to stderr, which every scenario child redirects to /dev/null (see _child)
 
 HOOKS_OK = bool(getattr(_hooks, 'ENABLED', False))
 
@@ -546,7 +547,8 @@ def expected_frames(step, ctx, frm, to):
         arrs = []
         for c in fe['chans']:
             present = c.get('arr') is not None
-            a = get_array(c['arr'], ctx) if present else None
+            # from a pristine copy built from the program, never from the live array the writer has had its hands on
+            a = make_array(ctx['prog']['arrays'][c['arr']])[0] if present else None
             cast = np.dtype(c['cast']) if c.get('cast') else None
             dtn = (cast or a.dtype).name if present else ''
             chans.append({'oid': ctx['oids'].get(c['ch'], 0), 'present': present,
@@ -805,11 +807,29 @@ def op_script(step, ctx):
     return rec.events + [ev]
 
 
+def op_set_sul(step, ctx):
+    """Change a public attribute of the storage unit label of an existing DLISFile (between two writes)."""
+    ev = {'op': 'set_sul', 'fid': step['fid'], 'field': step['field'], 'num': 0, 'text': []}
+    try:
+        sul = ctx['files'][step['fid']].storage_unit_label
+        if step['field'] == 'set_identifier':
+            ev['text'] = cps(step['v'])
+        else:
+            ev['num'] = int(step['v'])
+        setattr(sul, step['field'], step['v'])
+        ev['outcome'] = 'ok'
+    except Exception as e:  # noqa
+        ev['outcome'] = 'raised'
+        ev['exc'] = exc_text(e)
+    ev['hc'] = hc_flag()
+    return [ev]
+
+
 def op_mark(step, ctx):
     return [{'op': 'mark', 'what': step.get('what', ''), 'outcome': 'ok', 'hc': hc_flag()}]
 
 
-OPS = {'mark': op_mark, 'script': op_script, 'attr': op_attr, 'lowwrite': op_lowwrite, 'new_file': op_new_file, 'add_lf': op_add_lf, 'add': op_add, 'set': op_set,
+OPS = {'mark': op_mark, 'set_sul': op_set_sul, 'script': op_script, 'attr': op_attr, 'lowwrite': op_lowwrite, 'new_file': op_new_file, 'add_lf': op_add_lf, 'add': op_add, 'set': op_set,
        'nofmt_data': op_nofmt_data, 'hc_enter': op_hc, 'hc_exit': op_hc, 'hc_exit_exc': op_hc,
        'hc_decorated': op_hc_decorated, 'write': op_write, 'encode': op_encode}
 
@@ -842,6 +862,12 @@ def run_program(prog):
 
 
 def _child(task):
+    try:
+        dn = os.open(os.devnull, os.O_WRONLY)
+        os.dup2(dn, 2)
+        os.close(dn)
+    except OSError:
+        pass
     try:
         if not HOOKS_OK:
             return {'machinery_error': 'hooks are not enabled in the imported dliswriter'}
